@@ -126,3 +126,67 @@ func verifC15_own() {
 	c.CloseNow()
 	vObserve("own", err == nil, len(payloads))
 }
+
+// C15.own.sched (exploration mode): two concurrent Pings and a reader; the peer answers (once both pings are out) with
+// the two pongs in either order, or with only one of them. Each Ping returns nil iff its own payload came back.
+func verifC15_two() {
+	client := vParam("client", 1) == 1
+	vInstallRand()
+	mk := func(f vFrame) vFrame {
+		f.masked = !client
+		if f.masked {
+			copy(f.key[:], vBytes("key", 4))
+		}
+		return f
+	}
+	order := vChoose("pongs", 4) // 0: "1","2"  1: "2","1"  2: only "1"  3: only "2"
+	var in []vFrame
+	switch order {
+	case 0:
+		in = []vFrame{mk(vFrame{fin: true, opcode: 10, payload: []byte("1")}), mk(vFrame{fin: true, opcode: 10, payload: []byte("2")})}
+	case 1:
+		in = []vFrame{mk(vFrame{fin: true, opcode: 10, payload: []byte("2")}), mk(vFrame{fin: true, opcode: 10, payload: []byte("1")})}
+	case 2:
+		in = []vFrame{mk(vFrame{fin: true, opcode: 10, payload: []byte("1")})}
+	case 3:
+		in = []vFrame{mk(vFrame{fin: true, opcode: 10, payload: []byte("2")})}
+	}
+	t := vNewTransport(vEncodeFrames(in))
+	t.endMode = vEndBlock
+	t.vGate(0, 2) // the pongs arrive once both pings are on the wire
+	c := vNewConn(t, client, nil, 16, 64)
+	res := make(chan [2]interface{}, 2)
+	vGhostExplore(vParam("preempt", 1))
+	rctx, rcancel := context.WithTimeout(vBG, 5*time.Second)
+	ping := func() {
+		ctx, cancel := context.WithTimeout(vBG, 2*time.Second)
+		// which payload this ping carries is decided by the library's counter: read it back from the registry after the call
+		err := c.Ping(ctx)
+		cancel()
+		res <- [2]interface{}{err, nil}
+	}
+	go ping()
+	go ping()
+	c.Reader(rctx) // the harness goroutine is the reader: it handles the pongs until its context ends
+	r1 := <-res
+	r2 := <-res
+	vGhostExploreOff()
+	vReach("C15.two.returned")
+	okCount := 0
+	if r1[0] == nil {
+		okCount++
+	}
+	if r2[0] == nil {
+		okCount++
+	}
+	want := 2
+	if order >= 2 {
+		want = 1
+	}
+	vAssert(okCount == want, "C15.two.each-ping-matched-to-its-own-pong")
+	frames, ok := vParseWritten(t.out)
+	vAssert(vAnd(ok, len(frames) >= 2), "C15.two.pings-written")
+	rcancel()
+	c.CloseNow()
+	vObserve("two", order, okCount)
+}
